@@ -797,6 +797,8 @@ class SymArr:
         snap = r.snapshot()
         kind = self.kind
         assign_all(self, lambda *i: coerce_term(snap(*i), kind))
+        if hasattr(r, "nz_shift"):
+            self.nz_shift = r.nz_shift          # positions of a flatnonzero result shifted in place
         return self
 
     def __iadd__(self, o): return self._inplace(o, "add")
@@ -1045,6 +1047,10 @@ def binary(name, a, b, dtype=None):
         arr = oa[1]
         snap = arr.snapshot()
         t = ob[1]
+        if name == "add" and hasattr(arr, "nz") and z3.is_int_value(z3.simplify(t)) if z3.is_expr(t) and kind_of_term(t) == "int" else False:
+            shifted = SymArr.fresh(arr.shape_, lambda *i: snap(*i) + t, "int", arr.dtype)
+            shifted.nz, shifted.nz_shift = arr.nz, getattr(arr, "nz_shift", 0) + z3.simplify(t).as_long()
+            return shifted
         rd = result_dtype_binary(name, arr.dtype, ob[2] if not isinstance(b, (int, bool)) else arr.dtype)
         probe = apply_binary(name, snap(*[z3.IntVal(0)] * arr.ndim), t)
         return SymArr.fresh(arr.shape_, lambda *i: apply_binary(name, snap(*i), t), kind_of_term(probe), dtype or rd)
@@ -1338,29 +1344,40 @@ def getitem_fancy_nd(arr, idx):
 # -- boolean masks: the rank / position functions of the flatnonzero contract ------------------
 
 
-class NonzeroFacts:
-    """flatnonzero(mask) for a 1-D boolean closure of length n:
-    cnt = number of true cells; pos: [0,cnt) -> [0,n) strictly increasing with mask[pos[t]];
-    rk(i) = number of true cells before i  (rk(0)=0, rk(i+1)=rk(i)+mask[i], rk(n)=cnt, pos[rk(i)]=i if mask[i])."""
+class _NzGlobal:
+    """per mask VALUE (closure): rk(i) = number of true cells before i (for every i >= 0), pos(t) = position of the t-th true
+    cell.  Shared by all arrays with the same mask closure, whatever their length (flatnonzero of a prefix is a prefix)."""
 
-    def __init__(self, mask_f, n, name="nz"):
+    def __init__(self, mask_f, name):
         c = cur()
-        self.n = dim_term(n)
         self.mask = mask_f
-        self.cnt = z3.Int(fresh_name(name + "_cnt"))
         self.pos = z3.Function(fresh_name(name + "_pos"), z3.IntSort(), z3.IntSort())
         self.rk = z3.Function(fresh_name(name + "_rk"), z3.IntSort(), z3.IntSort())
-        n_, pos, rk, cnt = self.n, self.pos, self.rk, self.cnt
-        c.assume(z3.And(cnt >= 0, cnt <= n_, rk(0) == 0, rk(n_) == cnt))
+        rk = self.rk
+        c.assume(rk(0) == 0)
+        c.assume_forall(name + ".rk", lambda i: z3.Implies(0 <= i, z3.And(rk(i + 1) == rk(i) + z3.If(mask_f(i), 1, 0), rk(i) >= 0, rk(i) <= i)))
+        c.assume_forall(name + ".rkmono", lambda i, j: z3.Implies(z3.And(0 <= i, i <= j), rk(i) <= rk(j)), arity=2)
+        c.add_index(z3.IntVal(0))
+
+
+class NonzeroFacts:
+    """flatnonzero(mask) for a 1-D boolean closure of length n:
+    cnt = rk(n) = number of true cells; pos: [0,cnt) -> [0,n) strictly increasing with mask[pos[t]];
+    rk(i) = number of true cells before i  (rk(0)=0, rk(i+1)=rk(i)+mask[i], pos[rk(i)]=i if mask[i])."""
+
+    def __init__(self, glob, n, name="nz"):
+        c = cur()
+        self.n = dim_term(n)
+        self.mask, self.pos, self.rk = glob.mask, glob.pos, glob.rk
+        self.cnt = glob.rk(self.n)
+        n_, pos, rk, cnt, mask_f = self.n, self.pos, self.rk, self.cnt, self.mask
+        c.assume(z3.And(cnt >= 0, cnt <= n_))
         c.assume_forall(name + ".pos", lambda t: z3.Implies(z3.And(0 <= t, t < cnt),
                         z3.And(0 <= pos(t), pos(t) < n_, mask_f(pos(t)), rk(pos(t)) == t)))
         c.assume_forall(name + ".posmono", lambda t: z3.Implies(z3.And(0 <= t, t + 1 < cnt), pos(t) < pos(t + 1)))
         c.assume_forall(name + ".posmono2", lambda s_, t: z3.Implies(z3.And(0 <= s_, s_ < t, t < cnt), pos(s_) < pos(t)), arity=2)
-        c.assume_forall(name + ".rk", lambda i: z3.Implies(z3.And(0 <= i, i < n_),
-                        z3.And(rk(i + 1) == rk(i) + z3.If(mask_f(i), 1, 0), rk(i) >= 0, rk(i) <= i,
-                               z3.Implies(mask_f(i), z3.And(rk(i) < cnt, pos(rk(i)) == i)))))
-        c.assume_forall(name + ".rkmono", lambda i, j: z3.Implies(z3.And(0 <= i, i <= j, j <= n_), rk(i) <= rk(j)), arity=2)
-        c.add_index(z3.IntVal(0))
+        c.assume_forall(name + ".hit", lambda i: z3.Implies(z3.And(0 <= i, i < n_, mask_f(i)), z3.And(rk(i) < cnt, pos(rk(i)) == i)))
+        c.add_index(z3.IntVal(0), n_)
         c.ghost.setdefault("nonzero_facts", []).append(self)
 
 
@@ -1376,12 +1393,16 @@ def nonzero_facts(mask_arr, name="nz"):
         snap = lambda i: coerce_term(s2(i), "bool")
     c = cur()
     t, n = snap(_NZ_PROBE), dim_term(flat.shape_[0])
+    gcache = c.ghost.setdefault("cache_nz_global", {})
+    if t.get_id() not in gcache:
+        gcache[t.get_id()] = (_NzGlobal(snap, name), t)          # the term is kept alive (ids are recycled otherwise)
+    glob = gcache[t.get_id()][0]
     cache = c.ghost.setdefault("cache_nz", {})
     key = (t.get_id(), n.get_id())
     if key in cache:
         return cache[key][0]
-    nz = NonzeroFacts(snap, flat.shape_[0], name)
-    cache[key] = (nz, t, n)          # terms kept alive (ids are recycled otherwise)
+    nz = NonzeroFacts(glob, flat.shape_[0], name)
+    cache[key] = (nz, t, n)
     return nz
 
 
